@@ -230,6 +230,17 @@ func (r *Result) Violate(kind, summary string, replay map[string]any) {
 	if same >= limit {
 		return
 	}
+	// the caller may reuse one map for several reports: work on a copy; a property violation with its concrete input never
+	// carries the marks of a correspondence mismatch recorded earlier on the same map
+	cp := map[string]any{}
+	for k, v := range replay {
+		cp[k] = v
+	}
+	replay = cp
+	if kind == "impl-violates-property" {
+		delete(replay, "no_failing_input_found")
+		delete(replay, "broken")
+	}
 	os.MkdirAll(r.replayDir, 0o755)
 	r.nreplay++
 	path := filepath.Join(r.replayDir, fmt.Sprintf("%s_%s_%d_%d.json", r.Property, r.Tier, r.Seed, r.nreplay))
